@@ -22,7 +22,7 @@ LEVEL = "exploration"
 RULE = ("cases = (a) every one-row CSV rule file over 24 patterns (plain, lookahead, \\b, back-reference, anchors, alternation, leading "
         "parenthesis, .*, char class, double quote, apostrophe, escaped +, literal backslash, \\d{3}, ' and ' inside a pattern, invalid regex) x "
         "20 modifier forms (none, amount > >= < <= = range, date = range lastNdays, month, two combined) x 4 merchant names x category "
-        "set/empty x 4 tag forms (incl. a tag containing a comma); (b) every ordered pair (quick) / triple (thorough) over a 27-row reduced alphabet incl. comment and blank "
+        "set/empty x 4 tag forms (incl. a tag containing a comma); (b) every ordered pair (quick) / triple (thorough) over a 29-row reduced alphabet incl. comment and blank "
         "lines. Each file is classified on descriptions x boundary amounts x boundary dates (only the dimensions its rows can "
         "distinguish). non-trivial = file whose rules match at least one transaction and not all of them; files distinct by construction")
 ASSUMPTIONS = ["a CSV file is 'accepted' when load_merchant_rules returns without raising",
@@ -64,6 +64,9 @@ REDUCED = ([{"pattern": p, "merchant": f"M{i}", "category": "Cat", "subcategory"
             {"pattern": "COSTCO[month=1]", "merchant": "Same", "category": "Shop", "subcategory": "Same", "tags": "same"},
             {"pattern": "COSTCO[month=12]", "merchant": "Same", "category": "Shop", "subcategory": "Same", "tags": "same"},
             {"pattern": "COSTCO[amount>100]", "merchant": "Same", "category": "Shop", "subcategory": "Same", "tags": "same"},
+            # rows that are identical except for their patterns (no modifiers): a capturing group in one, a numbered back-reference in the other
+            {"pattern": "(AMAZON|AMZN) MKTP", "merchant": "Twin", "category": "Shop", "subcategory": "Twin", "tags": "tw"},
+            {"pattern": r"(\w)\1", "merchant": "Twin", "category": "Shop", "subcategory": "Twin", "tags": "tw"},
             # short rows (trailing cells absent) and names padded with blanks
             {"pattern": "NETFLIX", "merchant": "Short3", "category": "Subs", "cells": 3},
             {"pattern": "UBER", "merchant": "Short2", "cells": 2},
